@@ -4,6 +4,7 @@
 //!   flv replay <ID> <file>
 //!   flv worker <ID> <tier> <seed> <chunk> <ncases> <outfile>      (internal)
 //!   flv child <kind> <file>                                       (internal)
+mod child;
 mod fscn;
 mod hist;
 mod hooks;
@@ -29,6 +30,7 @@ macro_rules! dispatch {
             "C09" => runner::$f::<props::c09::P>($($arg),*),
             "C17" => runner::$f::<props::c17::P>($($arg),*),
             "C12" => runner::$f::<props::c12::P>($($arg),*),
+            "C13" => runner::$f::<props::c13::P>($($arg),*),
             "C15" => runner::$f::<props::c15::P>($($arg),*),
             other => {
                 eprintln!("unknown property {other}");
@@ -90,6 +92,22 @@ fn main() {
             let ci: usize = chunk.parse().unwrap_or(0);
             vtime::apply_tz(vtime::TZS[ci % vtime::TZS.len()]);
             dispatch!(id.as_str(), worker, tier, seed, &chunk, n, Path::new(&out))
+        }
+        Some("child") => {
+            let kind = args.get(2).cloned().unwrap_or_default();
+            let file = args.get(3).cloned().unwrap_or_default();
+            if let Ok(tz) = std::env::var("TZ") {
+                vtime::apply_tz(&tz);
+            }
+            runner::install_panic_hook_child();
+            hooks::install();
+            match kind.as_str() {
+                "c13" => props::c13::child_main(Path::new(&file)),
+                other => {
+                    eprintln!("unknown child kind {other}");
+                    2
+                }
+            }
         }
         _ => {
             eprintln!("usage: flv check <ID> [--tier quick|thorough] [--seed N] | replay <ID> <file>");
